@@ -109,7 +109,7 @@ func Check_History() {
 		s := &sideRec{isSrc: ev == 0}
 		s.rich = sx.Choose("namespaceAndNodeNonEmpty", 2) == 1
 		s.hasCIP = sx.Choose("clusterIPNonZero", 2) == 1
-		r := agg.Rec{Key: key, FlowType: flowType, EgressAction: egress, IngressAction: ingress, TCPState: "ESTABLISHED", End: uint32(step + 1)}
+		r := agg.Rec{Key: key, FlowType: flowType, EgressAction: egress, IngressAction: ingress, TCPState: "ESTABLISHED", End: sx.U32("flowEndSeconds")} // the two nodes' clocks and export times are not ordered
 		r.ServicePort = sx.U16("servicePort")
 		r.IngressPriority = sx.I32("ingressPriority")
 		if s.hasCIP {
